@@ -16,6 +16,7 @@ import (
 
 	"github.com/shutter-network/rolling-shutter/rolling-shutter/medley/identitypreimage"
 	"github.com/shutter-network/rolling-shutter/rolling-shutter/p2pmsg"
+	"github.com/shutter-network/rolling-shutter/rolling-shutter/trace"
 
 	"verif/sim/simkit"
 	"verif/sim/simnet"
@@ -257,6 +258,14 @@ func runC05(r *simkit.Run) {
 		return desc
 	}
 
+	// a fifth of the runs have tracing switched on (trace.SetEnabled: the envelope's trace
+	// context is then read on receipt)
+	tracing := c.Chance(200, "tracing-enabled")
+	if tracing {
+		trace.SetEnabled()
+		defer trace.SetDisabled()
+		r.Probe("runs-with-tracing")
+	}
 	nmsg := c.Range(8, 30, "n-messages")
 	for mi := 0; mi < nmsg; mi++ {
 		var data []byte
@@ -271,7 +280,18 @@ func runC05(r *simkit.Run) {
 			m, what := base()
 			desc = what + mutate(m)
 			var err error
-			data, err = p2pmsg.Marshal(m, nil)
+			var tc *p2pmsg.TraceContext
+			if tracing && c.Chance(600, "trace-context") {
+				// envelope metadata no validator looks at: trace / span ids and flags of every length
+				tc = &p2pmsg.TraceContext{
+					TraceId:    c.Bytes(simkit.Pick(c, []int{0, 8, 15, 16, 16, 16, 17}, "trace-id-len"), "trace-id"),
+					SpanId:     c.Bytes(simkit.Pick(c, []int{0, 7, 8, 8, 8, 9}, "span-id-len"), "span-id"),
+					TraceFlags: c.Bytes(simkit.Pick(c, []int{0, 0, 1, 1, 2}, "trace-flags-len"), "trace-flags"),
+					TraceState: simkit.Pick(c, []string{"", "a=b", "=", "a=b,c=d", "\x00"}, "trace-state"),
+				}
+				desc += fmt.Sprintf(" +trace(%d/%d/%d)", len(tc.TraceId), len(tc.SpanId), len(tc.TraceFlags))
+			}
+			data, err = p2pmsg.Marshal(m, tc)
 			if err != nil {
 				r.InfraFail("marshal: %v", err)
 			}
